@@ -84,12 +84,33 @@ fn midpoint(ne: usize, g: usize, e: usize, j: &[Q], omega: &[Q]) -> f64 {
 
 /// x-space point that walks `path` (edges removed in this order) with midpoint answers, then gives `u` at the reached subgraph
 fn point_for(ne: usize, full: usize, path: &[usize], u: f64, d: &Driven) -> (Vec<f64>, usize) {
+    let (x, g, _) = point_for_checked(ne, full, path, u, d);
+    (x, g)
+}
+
+/// also reports whether every interval on the path can be hit by an f64 answer with the G5 margin on both sides
+/// (with a weight hierarchy of 2^60 some intervals are narrower than an ulp: such subgraphs cannot be steered to)
+fn point_for_checked(ne: usize, full: usize, path: &[usize], u: f64, d: &Driven) -> (Vec<f64>, usize, bool) {
     let mut x = vec![0.5; d.dim_x];
     let mut g = full;
     let mut pos = 0;
+    let mut resolvable = true;
     for &e in path {
         if g.count_ones() >= 2 {
-            x[pos] = midpoint(ne, g, e, &d.j, &d.omega);
+            let m = midpoint(ne, g, e, &d.j, &d.omega);
+            let cum = cumulative_probs(ne, g, &d.j, &d.omega);
+            let mut prev = qi(0);
+            for (k, c) in &cum {
+                if *k == e {
+                    let mq = qf(m);
+                    let margin = 1e-13 * g.count_ones() as f64;
+                    if !(q_to_f64(&(&mq - &prev)) > margin && q_to_f64(&(c - &mq)) > margin) {
+                        resolvable = false;
+                    }
+                }
+                prev = c.clone();
+            }
+            x[pos] = m;
             pos += 2; // u, xi
         }
         g ^= 1 << e;
@@ -97,8 +118,11 @@ fn point_for(ne: usize, full: usize, path: &[usize], u: f64, d: &Driven) -> (Vec
     if g.count_ones() >= 2 {
         x[pos] = u;
     }
-    // Box-Muller angles: keep 0.5 everywhere (irrelevant here)
-    (x, g)
+    return (x, g, resolvable);
+    #[allow(unreachable_code)]
+    {
+        (x, g, resolvable)
+    }
 }
 
 /// removal order read from the logged unrescaled parameters (strictly decreasing); None if ties / zeros
@@ -343,7 +367,11 @@ pub fn check_graph(g: &OGraph, acc: &mut Acc, both_paths: bool) {
         let cum = cumulative_probs(ne, target, &d.j, &d.omega);
         let cum_f: Vec<f64> = cum.iter().map(|c| q_to_f64(&c.1)).collect();
         for (pi, path) in paths.iter().enumerate() {
-            let (xbase, _) = point_for(ne, full, path, 0.5, &d);
+            let (xbase, _, resolvable) = point_for_checked(ne, full, path, 0.5, &d);
+            if !resolvable {
+                acc.inc("targets_not_steerable_with_f64_answers");
+                continue;
+            }
             let upos = 2 * path.len();
             for &u in &alpha {
                 let mut w = vec![];
@@ -448,8 +476,13 @@ pub fn run(ctx: &Ctx) -> i32 {
                         }
                         let g = mk(shape, &massive, w, ext, d);
                         // G1: accepted with margin, decided by the exact oracle
+                        // accepted with margin (G1) – or, for an extreme but legal weight hierarchy, every exact proper omega
+                        // strictly positive: the edge distribution is well defined there too and selection must stay total
                         match exact_omegas(&g, &pre) {
                             Some(ex) if ex.class == Class::MustOk && ex.dod as f64 >= 1e-9 * (1u64 << 60) as f64 => {}
+                            Some(ex) if w.iter().any(|x| *x < 1e-9) && (1..g.full()).all(|m| ex.omega[m] > 0) && ex.dod > 0 => {
+                                acc.inc("configurations_with_extreme_weight_hierarchy");
+                            }
                             _ => continue,
                         }
                         check_graph(&g, acc, tier == Tier::Thorough);
